@@ -700,6 +700,8 @@ func (f *frame) execSlice(in *ssa.Slice, st *State) {
 		c.oblige(st, f.path, "safety:slice", fmt.Sprintf("(and (<= 0 %s) (<= %s %s) (<= %s (scap %s)))", lo, lo, hi, hi, x.T), "slice bounds in range", in.Pos())
 		// s[lo:hi] of a nil slice stays nil (arr 0)
 		f.def(in, fmt.Sprintf("(mkslice (sarr %s) (+ (soff %s) %s) (- %s %s) (- (scap %s) %s))", x.T, x.T, lo, hi, lo, x.T, lo), st)
+		// the cells of the sub-slice named through the operand (a term to match for quantified facts about x[i])
+		c.assume(st, fmt.Sprintf("(forall ((i Int)) (! (= (selem %s i) (selem %s (+ %s i))) :pattern ((selem %s i))))", f.val(in).T, x.T, lo, f.val(in).T))
 	case *types.Basic: // string
 		hi := fmt.Sprintf("(Str_len %s)", x.T)
 		if in.High != nil {
